@@ -457,22 +457,19 @@ func vc09GenHistory(t *rapid.T) *vc09History {
 		}
 	}
 
-	// write 0 is fixed: it gives the int field a non-zero bit depth before the
-	// crash points start (a stored depth of 0 is re-interpreted on restart: D9,
-	// owned by another group) and makes shard 0 available.
-	w0 := vc09Write{Kind: "setval", Field: "v", Val: 1}
-	if sc.IndexKeys {
-		w0.ColKey = colKeys[0]
-	}
-	h.Writes = append(h.Writes, w0)
-
-	n := rapid.IntRange(1, vkit.Scale(8, 14)).Draw(t, "nWrites")
+	n := rapid.IntRange(2, vkit.Scale(9, 15)).Draw(t, "nWrites")
 	for i := 0; i < n; i++ {
 		var w vc09Write
-		kind := rapid.SampledFrom([]string{
+		kinds := []string{
 			"set", "set", "set", "clear", "setval", "setval", "import", "import", "importclear",
 			"importvalue", "importvalue", "roaring", "roaringclear", "store", "clearrow",
-		}).Draw(t, "kind")
+		}
+		if i == 0 {
+			// the first write creates a shard (Store/ClearRow over an index without
+			// any shard is a different subject)
+			kinds = []string{"set", "setval", "import", "importvalue"}
+		}
+		kind := rapid.SampledFrom(kinds).Draw(t, "kind")
 		w.Kind = kind
 		switch kind {
 		case "set", "clear":
